@@ -436,9 +436,9 @@ Proof.
     simpl in R. destruct (reexec s =? c_pid z) eqn:E.
     + rewrite Z.eqb_eq in E. apply IHf with (p := p) in R. simpl in R. auto.
       eapply invat_clear_reexec with (z := c_pid z); eauto. simpl. intros c Hc. apply Hsub. auto.
-    + destruct (Z.shiftr (status_of z) 8 =? worker_boot_error).
+    + destruct ((Z.shiftr (status_of z) 8 =? worker_boot_error) && raises _).
       { inversion R; subst. unfold halt_code. auto. }
-      destruct (Z.shiftr (status_of z) 8 =? app_load_error).
+      destruct ((Z.shiftr (status_of z) 8 =? app_load_error) && raises _).
       { inversion R; subst. unfold halt_code. auto. }
       apply IHf with (p := p) in R. simpl in R. auto.
       apply (invat_remove p (set_kids s rest)); auto. simpl. intros _ c Hc. apply Hsub. auto.
